@@ -51,6 +51,42 @@ def run(tier, replay=None):
             break
     for d in drift[:5]:
         print("NOTE model-drift property=C18 %s: %s -> %s (%s)" % (d["kind"], d["s"], d["got"], d["detail"]))
+    # scripts of jobs submitted concurrently: a real RemoteJobManager with --maxjobs renders the
+    # scripts of all chunks / forks dispatched in one pass from parallel goroutines; each job's
+    # script (kept next to its metadata) must name its own directories and nobody else's
+    ncluster = nscripts = nconc = 0
+    if not replay:
+        import random
+        import psrun
+        import shapes
+        rng = random.Random(vlib.seed())
+        progs = [q for q in shapes.catalogue() if q["name"] in ("split10", "map_dyn2", "map_keys", "diamond")]
+        sem, _ = psrun.semantics(progs)
+        specs = []
+        for q in progs:
+            for n in range(3 if tier == "quick" else 20):
+                specs.append(psrun.make_spec(q, sem[q["name"]], {"kind": "random", "seed": rng.randrange(1 << 30), "penv": rng.choice([0.3, 0.6])},
+                                             name="%s#s%d" % (q["name"], n), maxjobs=rng.choice([4, 8, 16])))
+        res = psrun.run_specs(specs, nproc=8)
+        for sp, r_ in zip(specs, res):
+            ncluster += 1
+            nscripts += r_.get("script_checked") or 0
+            for b in (r_.get("script_bad") or [])[:2]:
+                viols.append({"key": "C18:concurrent-job-script:%s" % sp["name"].split("#")[0],
+                              "what": "cluster mode, --maxjobs=%d, program %s: %s" % (sp["maxjobs"], sp["name"], b[:500]),
+                              "replay": {"spec.json": json.dumps(sp)}})
+        if nscripts == 0:
+            raise vlib.Infra("no job scripts were found in the cluster-mode runs")
+        # the same on the rendering function alone: 8 goroutines on one job manager
+        p = vlib.run_harness(["sh-concurrent"], timeout=600)
+        crep = json.loads(p.stdout)
+        nconc = crep["renderings"]
+        if crep["differ"]:
+            ex = crep["examples"][0]
+            viols.append({"key": "C18:concurrent-job-script:rendering",
+                          "what": "%d of %d job scripts rendered concurrently on one job manager differ from the script of the same job rendered alone, e.g. job %s: %s" % (
+                              crep["differ"], crep["renderings"], ex["Job"], ex["Got"][:300].replace("\n", " ; ")),
+                          "replay": {"example.json": json.dumps(ex)}})
     rc, nunk, hit = vlib.conclude("C18", viols)
     vlib.write_evidence("C18", tier, "model_checking", {
         "states": nrows, "transitions": nrows,
@@ -58,6 +94,7 @@ def run(tier, replay=None):
         "samples": samples[:5],
         "exhaustive": True,
         "rows_replayed": nrows, "shell_processes": shell_runs, "job_scripts_executed": scripts,
+        "cluster_mode_runs": ncluster, "concurrently_rendered_job_scripts_checked": nscripts, "concurrent_renderings_compared": nconc,
         "model_drift": len(drift), "tlc_runs": tlc_info, "known_findings_hit": hit,
         "alphabet": "a SP \" ' $ ` \\ NL * ! # ; & | ( ~ { TAB é <FF> 7 = _ (length <= 3); specials only for length <= 5 (thorough)",
     }, [
